@@ -48,6 +48,18 @@ KNOWN_UNSUPPORTED = {
               'argument about the class graph (9.5j)',
     'C16-h1': 'conflict established by looking into the top layer of the '
               'receiving map: rests on the back-link invariants (9.5j)',
+    'C01-i1': 'get() answered from a per-type memo of pairs: the reader rule '
+              'looks for the loop over the type index (9.5k)',
+    'C04-i1': 'release by a cursor kept in the dispatcher instead of removing '
+              'the front element: no argument carried (9.5k)',
+    'C08-i1': 'wake loop on a cached wake time: equality with the heap head '
+              'at every read is not modelled (9.5k)',
+    'C15-i1': 'argument mapping through a shared write-back helper: the '
+              'mapped function is not found (9.5k)',
+    'C16-i1': 'keys assembled by string arithmetic from the relative path of '
+              'the rule directory: an argument about os.path (9.5k)',
+    'C19-i1': 'prototype initialiser chosen by a helper method: expression '
+              'not understood (9.5k)',
 }
 
 
